@@ -399,16 +399,22 @@ PROPS['C25'] = {
 }
 PROPS['C07'] = {
     'level': 'proof', 'registered': False,
-    'modules': ['MinterProofs.Props.C07', 'MinterProofs.Props.C14', 'MinterProofs.Props.C15', 'MinterProofs.Props.C19', 'MinterProofs.Props.C23', 'MinterProofs.Props.C24'],
+    'modules': ['MinterProofs.Props.C07', 'MinterProofs.Props.C07Tx', 'MinterProofs.Props.C14', 'MinterProofs.Props.C15', 'MinterProofs.Props.C19', 'MinterProofs.Props.C23', 'MinterProofs.Props.C24'],
     'theorems': ['Minter.C07_bfs_no_panic', 'Minter.C07_sfb_no_panic', 'Minter.C07_quote_no_panic',
                  'Minter.Lob.ratInt_eq_ediv', 'Minter.Lob.partialSellAmount_eq', 'Minter.Lob.partialBuyAmounts_eq',
                  'Minter.remove_liquidity_exec_ok', 'Minter.payout_remainder_nonneg',
-                 'Minter.Rlp.decode_fuel_irrelevant', 'Minter.Ev.C24_run_total'],
+                 'Minter.Rlp.decode_fuel_irrelevant', 'Minter.Ev.C24_run_total',
+                 # transaction layer (c07 builder): every Stop.panic / Quote.panic site of the transaction model
+                 'Minter.C07_deliver_no_panic_all_types_pools_without_orders', 'Minter.C07_check_no_panic_all_types_pools_without_orders',
+                 'Minter.C07_prologue_total', 'Minter.C07_commission_payment_total', 'Minter.C07_failure_fee_no_panic',
+                 'Minter.C07_quote_panics_on_negative_amount', 'Minter.txInv_iff', 'Minter.payCommission_total', 'Minter.quote_round_trip',
+                 'Minter.unbondMoves_noPanic'],
     'panics_count': True,
     'campaigns': [camp('malformed', 16, 200), camp('mixed', 16, 200), camp('staking', 8, 100), camp('orders', 8, 100), camp('begin', 8, 60)],
     'assumptions': ['only the panic sites the Lean models represent are covered by theorems; nil dereferences / index errors in glue code, resource exhaustion and third-party library panics are only searched for',
-                    'payout_remainder_nonneg needs sum(bip) <= the validator\'s recorded stake (see C19); C24_run_total needs the events-store bound (see C24)'],
-    'claim_draft': "Partial. Lean theorems, one per panic site the models represent, each for all inputs of its domain: the swap check after a pool quote can never fail, so the panic(err) sites inside calculateBuyForSellWithOrders / calculateSellForBuyWithOrders are dead for pools without orders, also through the public quotes with the 0.1% burn (C07_bfs_no_panic, C07_sfb_no_panic, C07_quote_no_panic; positive reserves, non-negative amount); the big.Float detour of a limit-order partial fill is exact, so both 'negative amount' panics and all clamp branches are dead (Lob.ratInt_eq_ediv, Lob.partialSellAmount_eq, Lob.partialBuyAmounts_eq); the deliver-side panic site of RemoveLiquidity is unreachable after its validation (remove_liquidity_exec_ok); the 'Negative remainder' panic of the reward payout cannot fire while the stakes' bip values sum to at most the validator's recorded stake (payout_remainder_nonneg); RLP decoding is a total function whose fuel never causes a rejection (Rlp.decode_fuel_irrelevant); the events store never panics on bounded well-formed runs (Ev.C24_run_total). Everything else is SEARCH, not proof: every ABCI call of every campaign (malformed bytes, mixed, staking, orders, begin: evidence / absences / maturing funds) runs under recover(); any panic of InitChain, BeginBlock, CheckTx, DeliverTx, EndBlock or Commit is reported with the trace (PANIC ...). The panics found so far (F1, F2, F8, F9, F12, F13, F28, F29 ...) are repaired in /repo and recorded in known_findings.json.",
+                    'payout_remainder_nonneg needs sum(bip) <= the validator\'s recorded stake (see C19); C24_run_total needs the events-store bound (see C24)',
+                    'C07_deliver_no_panic… / C07_check_no_panic…: states satisfying txInvB (monitored on every commit: VIOL C07 tx-invariant-broken), non-negative decoded integers (RLP has none), BuySwapPool with ValueToBuy <= 10^33; pools with limit orders and the four formula functions are outside the transaction model; the eight model self-check guards (modelGuards) are not Go panics and are excluded from the statement'],
+    'claim_draft': "Partial. Lean theorems, one per panic site the models represent, each for all inputs of its domain: the swap check after a pool quote can never fail, so the panic(err) sites inside calculateBuyForSellWithOrders / calculateSellForBuyWithOrders are dead for pools without orders, also through the public quotes with the 0.1% burn (C07_bfs_no_panic, C07_sfb_no_panic, C07_quote_no_panic; positive reserves, non-negative amount); the big.Float detour of a limit-order partial fill is exact, so both 'negative amount' panics and all clamp branches are dead (Lob.ratInt_eq_ediv, Lob.partialSellAmount_eq, Lob.partialBuyAmounts_eq); the deliver-side panic site of RemoveLiquidity is unreachable after its validation (remove_liquidity_exec_ok); the 'Negative remainder' panic of the reward payout cannot fire while the stakes' bip values sum to at most the validator's recorded stake (payout_remainder_nonneg); RLP decoding is a total function whose fuel never causes a rejection (Rlp.decode_fuel_irrelevant); the events store never panics on bounded well-formed runs (Ev.C24_run_total). Transaction layer (MinterProofs/Props/C07Tx.lean; inventory of every Stop.panic / Quote.panic site of the transaction model against its Go site in the file header): for all parameters, oracle answers, blocks and transactions of all 37 types, in every state with the decidable invariant txInvB (amountsOk, pools stored sorted with reserves <= max supply, no negative price-table entry, the price-table coin has its pool, every pool has its LP token with positive supply; txInv_iff) and non-negative decoded integers, neither DeliverTx nor CheckTx of the model can end in a fault other than one of the model's own eight consistency guards, which stand for no Go panic (C07_deliver_no_panic_all_types_pools_without_orders, C07_check_no_panic_all_types_pools_without_orders; BuySwapPool under ValueToBuy <= 10^33); a prologue rejection is an answer, never a fault (C07_prologue_total); the commission payment of a validated transaction always succeeds - selling back what CalculateSellForBuyWithOrders quoted yields at least the base-coin price (C07_commission_payment_total, payCommission_total, quote_round_trip); the failure fee, also capped at the payer's balance, cannot fault (C07_failure_fee_no_panic); SubStake on a missing stake is unreachable after the validation (unbondMoves_noPanic; it WAS reachable on the node with Value = 0: F32, repaired in /repo abd6676); a negative amount does make the pool quote panic (C07_quote_panics_on_negative_amount), which is why the price computed from raw data is rejected with 119 before the pool arithmetic (F33, /repo 19af872, mirrored by the guard in basePrice). The hypothesis txInvB is evaluated on every committed state of every campaign (VIOL C07 tx-invariant-broken). Not covered by these theorems: swaps, commissions or price conversions crossing a pool with limit orders, faults inside formula.Calculate* (C12), glue code the model does not represent. Everything else is SEARCH, not proof: every ABCI call of every campaign (malformed bytes, mixed, staking, orders, begin: evidence / absences / maturing funds) runs under recover(); any panic of InitChain, BeginBlock, CheckTx, DeliverTx, EndBlock or Commit is reported with the trace (PANIC ...). The panics found so far (F1, F2, F8, F9, F12, F13, F28, F29, F32, F33 ...) are repaired in /repo and recorded in known_findings.json.",
 }
 
 
